@@ -17,7 +17,7 @@ RULE = ("(1) for every built-in command of the CSV library set a valid base mode
         "wrong-fuzziness results, bad paths, unknown command, duplicate result); (2) the same faults at random positions of random "
         "models with sinks; (3) every producer x consumer pairing of built-in data commands; (4) unfaulted models must be accepted; "
         "distinct by (fault kind, command, parameter, variant) / (producer, consumer)")
-REQUIRED_COUNTERS = ["rejections_checked", "side_effect_free_rejections", "acceptances_checked", "pairings_checked", "exec_events_seen_in_valid_runs", "netcdf_model_cases", "api_built_models"]
+REQUIRED_COUNTERS = ["rejections_checked", "side_effect_free_rejections", "acceptances_checked", "pairings_checked", "exec_events_seen_in_valid_runs", "netcdf_model_cases", "api_built_models", "incremental_rejections_checked"]
 ASSUMPTIONS = ["a list or tuple given to a String/Path parameter is don't-care (string cleaning stringifies by design)",
                "value-dependent run-time errors (InvalidThresholds, DuplicateRawValues, ...) are not acceptance errors",
                "the acceptance rule is restated from the declarations (inputs/required/output/is_fuzzy), not from running clean()"]
@@ -127,6 +127,32 @@ def cases(ctx):
     # duplicate result names in files written (partly) in EEMS 2.0 syntax
     for i in range(ctx.n(12, 300)):
         yield {"kind": "v2dup", "variant": i % 4, "rseed": rng.randrange(10 ** 9)}
+    # a model that ran, then grows through add_command by a faulty command (and a further, valid, writer): the second run() is
+    # rejected before anything of it executes
+    for i in range(ctx.n(120, 6000)):
+        m = models.gen_model(rng, n_ops=rng.randint(2, 6), sinks=True)
+        sinks = [c["result"] for c in m["commands"] if c["cmd"] in ("PrintVars", "EEMSWrite")]
+        fz = [c["result"] for c in m["commands"] if c["cmd"] in arr.FUZZY_OUTPUT]
+        nf = [c["result"] for c in m["commands"] if c["cmd"] == "EEMSRead" or (c["cmd"] in arr.INPUT_STYLE and c["cmd"] not in arr.FUZZY_OUTPUT and c["cmd"] != "Copy")]
+        fault = ["non-data-result", "wrong-fuzziness", "missing-result", "wrong-kind"][i % 4]
+        if fault == "non-data-result":
+            if not sinks:
+                continue
+            bad = {"result": "Late", "cmd": rng.choice(["Sum", "Maximum"]), "args": {"InFieldNames": [rng.choice(nf), rng.choice(sinks)]}} if rng.random() < 0.6 else \
+                  {"result": "Late", "cmd": "Copy", "args": {"InFieldName": rng.choice(sinks)}}
+            ok = ["ResultTypeNotValid", "ParameterNotValid"]
+        elif fault == "wrong-fuzziness":
+            if fz and rng.random() < 0.5:
+                bad, ok = {"result": "Late", "cmd": "Sum", "args": {"InFieldNames": [rng.choice(nf), rng.choice(fz)]}}, ["ResultIsFuzzy"]
+            else:
+                bad, ok = {"result": "Late", "cmd": "FuzzyOr", "args": {"InFieldNames": [rng.choice(nf)]}}, ["ResultNotFuzzy"]
+        elif fault == "missing-result":
+            bad, ok = {"result": "Late", "cmd": "Copy", "args": {"InFieldName": "No_Such_Result"}}, ["ResultDoesNotExist"]
+        else:
+            bad, ok = {"result": "Late", "cmd": "WeightedSum", "args": {"InFieldNames": [rng.choice(nf)], "Weights": "heavy"}}, ["ParameterNotValid"]
+        writer = {"result": "LateOut", "cmd": "EEMSWrite", "args": {"OutFileName": "late.csv", "OutFieldNames": [rng.choice(nf)]}}
+        extra = [bad, writer] if rng.random() < 0.5 else [writer, bad]
+        yield {"kind": "incremental", "model": m, "extra": extra, "fault": fault, "ok": ok}
     # (3) pairings
     data_cmds = list(cmdgen.ALL)
     k = 0
@@ -195,10 +221,53 @@ def run_v2dup(ctx, case):
         ctx.count("side_effect_free_rejections")
 
 
+def run_incremental(ctx, case):
+    import copy
+    d = ctx.scratch()
+    model = case["model"]
+    try:
+        prog = models.load(model, d)
+        prog.run()
+    except Exception as e:
+        ctx.dontcare("base model of the incremental case raises %s" % type(e).__name__)
+        return
+    ctx.count("rejections_checked")
+    ctx.count("incremental_rejections_checked")
+    ctx.feature(("incremental", case["fault"], case["extra"][0]["result"], tuple(c["cmd"] for c in case["extra"])))
+    before = trace.snapshot_dir(d)
+    log = trace.start(watch_dirs=[d])
+    err = None
+    try:
+        for c in case["extra"]:
+            prog.add_command(prog.find_command_class(c["cmd"]), c["result"], copy.deepcopy(c["args"]))
+        trace.attach(prog)
+        prog.run()
+    except Exception as e:
+        err = e
+    finally:
+        trace.stop()
+    changed = trace.diff_snapshots(before, trace.snapshot_dir(d))
+    execs = [e["name"] for e in log if e["k"] == "exec_enter"]
+    writes = [(e["op"], os.path.basename(e["path"])) for e in log if e["k"] == "fs_write"]
+    detail = {"added": case["extra"], "base_commands": [(c["result"], c["cmd"]) for c in model["commands"]]}
+    if err is None:
+        ctx.fail("incremental:%s:accepted" % case["fault"], dict(detail, executed=execs[:6]))
+        return
+    if type(err).__name__ not in case["ok"]:
+        inner = type(getattr(err, "exc", None)).__name__ if type(err).__name__ == "UnexpectedError" else None
+        ctx.fail("incremental:%s:rejected-with-%s" % (case["fault"], type(err).__name__ + ("/" + inner if inner else "")), dict(detail, error=str(err)[:300], executed_before=execs[:6]))
+    if execs or writes or changed:
+        ctx.fail("incremental:%s:side-effect-before-rejection" % case["fault"], dict(detail, executed=execs[:6], fs_writes=writes[:4], changed_files=changed[:4], error=type(err).__name__))
+    else:
+        ctx.count("side_effect_free_rejections")
+
+
 def run_case(ctx, case):
     kind = case["kind"]
     if kind == "pair":
         return run_pair(ctx, case)
+    if kind == "incremental":
+        return run_incremental(ctx, case)
     if kind == "v2dup":
         return run_v2dup(ctx, case)
     d = ctx.scratch()
